@@ -40,7 +40,7 @@ if "--merge" in sys.argv:
     print("merged", len(rows), "rows;", sum(1 for r in rows if not str(r[2]).startswith("CAUGHT") and r[1] == r[0][:3]), "own-check rows not CAUGHT")
     sys.exit(0)
 # changes whose mechanism belongs (also) to another property's check
-EXTRA = {"C01-H": ["C03"], "C03-G": ["C16"], "C06-H": ["C05"], "C08-G": ["C16"], "C16-H": ["C04"], "C08-F": ["C12"], "C05-F": ["C09"], "C01-F": ["C09"], "C02-D": ["C17"], "C14-D": ["C03"], "C08-C": ["C10"], "C08-D": ["C14"], "C04-C": ["C09"], "C07-D": ["C03", "C18"], "C06-D": ["C05"], "C01-K": ["C16"], "C01-L": ["C03"], "C02-L": ["C09"], "C17-J": ["C02", "C15"], "C01-M": ["C04"], "C01-N": ["C12"], "C07-M": ["C18"], "C09-M": ["C18"], "C15-K": ["C16"], "C15-M": ["C18"], "C15-N": ["C14"], "C08-M": ["C15", "C19"], "C17-N": ["C18"], "C03-P": ["C18"], "C03-Q": ["C18"], "C07-Q": ["C03"], "C15-P": ["C14"], "C18-P": ["C03", "C14"], "C19-P": ["C01"], "C06-Q": ["C09", "C05"], "C07-P": ["C04"], "C01-Q": ["C16"], "C08-P": ["C14", "C03"], "C08-Q": ["C14"], "C20-P": ["C01"], "C03-S": ["C09", "C04"], "C01-R": ["C09", "C04"], "C01-S": ["C12"], "C09-S": ["C04"], "C04-R": ["C01"], "C18-R": ["C03", "C09"], "C18-S": ["C17"], "C16-S": ["C04"], "C03-R": ["C14"], "C02-R": ["C16"], "C02-S": ["C04", "C12"], "C15-S": ["C12"], "C07-R": ["C06", "C09"], "C08-R": ["C02"], "C08-S": ["C09"], "C13-R": ["C15"], "C17-S": ["C02"]}
+EXTRA = {"C01-H": ["C03"], "C03-G": ["C16"], "C06-H": ["C05"], "C08-G": ["C16"], "C16-H": ["C04"], "C08-F": ["C12"], "C05-F": ["C09"], "C01-F": ["C09"], "C02-D": ["C17"], "C14-D": ["C03"], "C08-C": ["C10"], "C08-D": ["C14"], "C04-C": ["C09"], "C07-D": ["C03", "C18"], "C06-D": ["C05"], "C01-K": ["C16"], "C01-L": ["C03"], "C02-L": ["C09"], "C17-J": ["C02", "C15"], "C01-M": ["C04"], "C01-N": ["C12"], "C07-M": ["C18"], "C09-M": ["C18"], "C15-K": ["C16"], "C15-M": ["C18"], "C15-N": ["C14"], "C08-M": ["C15", "C19"], "C17-N": ["C18"], "C03-P": ["C18"], "C03-Q": ["C18"], "C07-Q": ["C03"], "C15-P": ["C14"], "C18-P": ["C03", "C14"], "C19-P": ["C01"], "C06-Q": ["C09", "C05"], "C07-P": ["C04"], "C01-Q": ["C16"], "C08-P": ["C14", "C03"], "C08-Q": ["C14"], "C20-P": ["C01"], "C03-S": ["C09", "C04"], "C01-R": ["C09", "C04"], "C01-S": ["C12"], "C09-S": ["C04"], "C04-R": ["C01"], "C18-R": ["C03", "C09"], "C18-S": ["C17"], "C16-S": ["C04"], "C03-R": ["C14"], "C02-R": ["C16"], "C02-S": ["C04", "C12"], "C15-S": ["C12"], "C07-R": ["C06", "C09"], "C08-R": ["C02"], "C08-S": ["C09"], "C13-R": ["C15"], "C17-S": ["C02"], "C11-T": ["C10"], "C11-U": ["C10"]}
 WT, VC = f"/tmp/sm_repo_{os.getpid()}", f"/tmp/sm_verif_{os.getpid()}"
 
 
